@@ -32,7 +32,7 @@ theorem C18execgen_one (numCPU : Int) (n nb : Nat) :
 disjoint, covering, ordered — for every n ≥ 0 and every single `maxCpus` value -/
 theorem C04execgen_tiles (numCPU : Int) (n : Nat) (m : Int) :
     (Execute numCPU (n : Int) [m]).flatMap (fun se => List.range' se.1.toNat (se.2 - se.1).toNat) = List.range n := by
-  rw [C04execgen_one, ← MSM.execute_partition n m, List.flatMap_map]
+  rw [C04execgen_one, ← C04.execute_partition n m, List.flatMap_map]
   congr 1
   funext se
   simp only [cast, Int.toNat_natCast]
@@ -42,7 +42,7 @@ theorem C04execgen_tiles (numCPU : Int) (n : Nat) (m : Int) :
 /-- … and without `maxCpus` (NumCPU ≥ 1 tasks) -/
 theorem C04execgen_tiles_default (numCPU n : Nat) (maxCpus : List Int) (hcpu : 1 ≤ numCPU) (h : maxCpus.length ≠ 1) :
     (Execute (numCPU : Int) (n : Int) maxCpus).flatMap (fun se => List.range' se.1.toNat (se.2 - se.1).toNat) = List.range n := by
-  rw [C04execgen_default numCPU n maxCpus hcpu h, ← MSM.executeDefault_partition n numCPU hcpu, List.flatMap_map]
+  rw [C04execgen_default numCPU n maxCpus hcpu h, ← C04.executeDefault_partition n numCPU hcpu, List.flatMap_map]
   congr 1
   funext se
   simp only [cast, Int.toNat_natCast]
